@@ -393,9 +393,9 @@ def run(ctx: Any) -> None:
         {
             "P_C11": [
                 "C11_iterate_is_reference", "C11_cap_independent_partial", "C11_resume", "C11_resume_any_cache_same",
-                "C11_overshoot_le_last", "C11_resume_token_roundtrip", "C11_turns_are_wire_core_frames",
+                "C11_overshoot_le_last", "C11_overshoot_le_last_init", "C11_resume_token_roundtrip", "C11_turns_are_wire_core_frames",
             ],
-            "T_HttpProd": ["resume_layout_tie", "loop_guard_tie", "C11_source_resume_token_roundtrip"],
+            "T_HttpProd": ["resume_layout_tie", "loop_guard_tie", "C11_source_resume_token_roundtrip", "C11_source_overshoot"],
         },
     )
 
@@ -467,7 +467,8 @@ def run(ctx: Any) -> None:
         caps += edge if thorough else rng.sample(edge, min(len(edge), 5))
         if bnds:
             caps.append(rng.randrange(1, max(bnds) + 50))
-        sizes_c = f"(([{'; '.join(f'({_s(k)}, {v}%N)' for k, v in logs.items())}], [{'; '.join(f'({k}%N, {v}%N)' for k, v in data.items())}]), {base}%N)"
+        all_rcs = [ref_rc]
+        pending: list[tuple[str, Any, Any, dict[str, Any]]] = []  # (scenario, cap / other specs, impl observation, info)
 
         # ---------------- scenario 0: iterate under every cap x coding
         by_cap: dict[Any, Any] = {}
@@ -511,9 +512,8 @@ def run(ctx: Any) -> None:
                         ctx.violation("response-coding-changes-events-or-chunking", "same cap, different response coding: events or chunking differ",
                                       {**repl, "identity": by_cap[cap], "coded": obs})
                     continue
-                inp = f"({c_prog(prog)}, {SHAPES[method]}, {sizes_c}, {c_wspec(1, cap, 8)}, [], 0%N)"
-                model_cases.append((inp, c_out([(ev, turn_summary(rc, S))])))
-                model_info.append({**repl, "scenario": "iterate", "impl": [ev, turn_summary(rc, S)]})
+                all_rcs.append(rc)
+                pending.append(("0", (c_wspec(1, cap, 8), "[]"), [obs], {**repl, "scenario": "iterate", "impl": list(obs)}))
 
         # ---------------- scenario 1: next_with_token, then resume everywhere
         origin = worker(None, fresh=True)
@@ -549,6 +549,7 @@ def run(ctx: Any) -> None:
                                   {**repl0, "k": k, "target": name, "resumed": ev, "remaining": want})
                 capx = cap2 if name == "cold-cache-capped" else None
                 overshoot_check(ctx, S, rc, capx, codec, {**repl0, "k": k, "target": name})
+                all_rcs.append(rc)
                 parts.append((ev, turn_summary(rc, S)))
             # further routes, oracle only: seek_to_token on a fresh session, a coded response, the second worker again (now warm)
             extra = [("second-worker-warm-seek", second, None, "seek_to_token"), ("cold-cache-coded", cold, rng.choice(["zstd", "gzip"]), "resume_stream")]
@@ -565,16 +566,27 @@ def run(ctx: Any) -> None:
                 ev, _ = do_resume(ctx, worker(None, 4096, S.OTHER_KEY), None, method, pid, tk, "resume_stream")
                 if batches(ev) or not ev or ev[-1][0] != "error":
                     ctx.violation("resume-under-foreign-key", "a worker with a different token key resumed the stream", {**repl0, "events": ev})
-        inp = f"({c_prog(prog)}, {SHAPES[method]}, {sizes_c}, {c_wspec(1, None, 8)}, [{'; '.join(others_spec)}], 1%N)"
-        model_cases.append((inp, c_out(parts)))
-        model_info.append({**repl0, "scenario": "nwt+resume", "cap2": cap2, "impl": parts, "tokens": len(live)})
-        _, _, _, stable2 = size_tables(S, [ref_rc, n_rc], ctx)
+        all_rcs.append(n_rc)
+        pending.append(("1", (c_wspec(1, None, 8), f"[{'; '.join(others_spec)}]"), parts, {**repl0, "scenario": "nwt+resume", "cap2": cap2, "impl": parts, "tokens": len(live)}))
+        # frame sizes: every frame the server wrote in any run of this program (a client that stops at an error never
+        # requests the later turns, so no single run sees them all)
+        logs, data, base, stable2 = size_tables(S, all_rcs, ctx)
         sizes_stable = sizes_stable and stable2
+        sizes_c = f"(([{'; '.join(f'({_s(k)}, {v}%N)' for k, v in logs.items())}], [{'; '.join(f'({k}%N, {v}%N)' for k, v in data.items())}]), {base}%N)"
+        for scen, (w0s, others_s), obs_parts, info in pending:
+            model_cases.append((f"({c_prog(prog)}, {SHAPES[method]}, {sizes_c}, {w0s}, {others_s}, {scen}%N)", c_out(obs_parts)))
+            model_info.append(info)
         if pi < 3 + len(witnesses):
             ctx.sample({"program": prog, "method": method, "uncapped_events": ref_ev, "resume_tokens": len(live)})
     ctx.log(f"implementation runs: {ctx.counters.get('impl_runs', 0)} in {time.time() - t0:.1f}s")
     ctx.count("codec_cases_outside_model_because_of_lagging_meter", skipped_lag)
     ctx.obligation("env:frame-sizes-stable", "environment", sizes_stable, "the same frame had two different encoded sizes within a case")
+    lag_seen = any(v["key"] == K_LAG for v in ctx.violations)
+    ctx.obligation(
+        "source:cap-test-meter", "correspondence", meter_front != lag_seen,
+        "the cap test reads the sink " + ("in front of" if meter_front else "behind") + " the compressor (translator) but the lagging-meter overshoot "
+        + ("reproduced" if lag_seen else "did not reproduce") + " on the witness program under a coded continuation turn",
+    )
     ctx.obligation("env:checked-some-turns", "environment", ctx.counters.get("turns_checked", 0) > 50, "overshoot oracle saw too few capped turns")
 
     ok, bad, log = ctx.coq_mismatches(HEADER, "run_case", "out_eqb", model_cases, "case_in", "case_out", shard=30)
